@@ -30,7 +30,7 @@ PROPS = {
    'must_reach': ['switch_in_free_mt', 'switch_in_tf_collect', 'free_mt_cas_retry', 'tf_collect_cas_retry', 'delayed_freeing_observed', 'spurious_cas_injected'],
  },
  'C08': {
-   'families': [('c08_drain', 5, ALL), ('c08_prodcons', 2, ALL), ('c09_exit', 1, ALL), ('c09_adopt_race', 1, ALL), ('c10_concurrent', 1.5, ALL)],
+   'families': [('c08_drain', 5, ALL), ('c08_prodcons', 2, ALL), ('c08_reuse', 1.5, ALL), ('c09_exit', 1, ALL), ('c09_adopt_race', 1, ALL), ('c10_concurrent', 1.5, ALL)],
    'runs': {'quick': 1700, 'thorough': 100000},
    'rule': 'non-trivial = the owner ran _mi_heap_delayed_free_partial / _mi_page_thread_free_collect while a remote was preempted inside its free (context switch inside the delayed-free functions); distinct = distinct (API hash, hot-switch signature)',
    'nontrivial': lambda r: sw(r, 'switch_in_free_mt', 'switch_in_tf_collect', 'switch_in_delayed_partial') > 0,
